@@ -8,4 +8,5 @@ CONSTANTS
   MaxKids = 0
   MaxChunks = 0
   MinMaxPropagation = TRUE
+  StreamsAwaited = TRUE
 CHECK_DEADLOCK FALSE
